@@ -21,7 +21,7 @@ from fractions import Fraction as F
 import numpy as np
 
 from harness import translators
-from harness.core import REPO, coq_eval_cases, coq_list, q_lit, run_impl
+from harness.core import safe_fraction, REPO, coq_eval_cases, coq_list, q_lit, run_impl
 
 HEADER = ("From Coq Require Import QArith List Bool String.\nFrom SV Require Import model.Materials gen.MaterialData.\n"
           "Import ListNotations.\nOpen Scope Q_scope.\n")
@@ -39,7 +39,7 @@ def uv(s):
 
 
 def fq(x):
-    return q_lit(F(float(x)))
+    return q_lit(safe_fraction(x))
 
 
 def read_fatigue(name, variant):
@@ -75,6 +75,7 @@ def run(ctx):
     translators.import_all()
     gen_ok = ctx.gen("MaterialData", translators.REGISTRY["MaterialData"])
     ctx.prove("C20")
+    ctx.prove("C20_real")
     if ctx.tier == "thorough":
         ctx.coqchk("C20")
     rng = ctx.rng
@@ -92,7 +93,7 @@ def run(ctx):
             c["T"] = [hx(t) for t in pts]
         elif sub == "fluid":
             node = read_table(sub, name, var)
-            c["mats"] = [m.tag for m in node]
+            c["mats"] = [m.tag for m in node] + ["a-material-the-file-does-not-list"]
             m0 = node[0]
             if m0.find("temp") is not None:
                 ts = [float(x) for x in m0.find("temp").text.split()]
@@ -145,9 +146,27 @@ def run(ctx):
             custom.append({"id": i, "kind": "pwthermal", "temps": [hx(x) for x in ts], "cond": [hx(rng.uniform(0.01, 0.03)) for _ in ts],
                            "diffu": [hx(rng.uniform(1e4, 2e4)) for _ in ts],
                            "T": [hx(x) for x in ts[1:-1] + [(a + b) / 2 for a, b in zip(ts[:-1], ts[1:])]]})
-    out = run_impl("c20_materials", {"cases": [{k: v for k, v in c.items() if k != "curves"} for c in cases], "custom": custom}, timeout=1500)
+    # every (thermal, deformation, damage) variant combination of every material through load_material
+    byname = {}
+    for sub, name, var in variants:
+        byname.setdefault(name, {}).setdefault(sub, []).append(var)
+    combos = [[name, tv, dv, gv] for name, d in sorted(byname.items()) if all(k in d for k in ("thermal", "deformation", "damage"))
+              for tv in d["thermal"] for dv in d["deformation"] for gv in d["damage"]]
+    out = run_impl("c20_materials", {"cases": [{k: v for k, v in c.items() if k != "curves"} for c in cases], "custom": custom,
+                                     "combos": combos}, timeout=1500)
     results, cres = out["results"], out["custom"]
-    findings, terms = [], []
+    findings = []
+    for o in out["combos"]:
+        ctx.case(("combo",) + tuple(o["combo"]), len(set(o["combo"][1:])) > 1)
+        ctx.count("load_material combinations")
+        what = "load_material(%r, %r, %r, %r)" % tuple(o["combo"])
+        if "error" in o:
+            findings.append(({"combo": o["combo"]}, "%s raised %s although the three single loaders accept these variants" % (what, o["error"])))
+        else:
+            for k in ("thermal", "deformation", "damage"):
+                if not o[k + "_same"]:
+                    findings.append(({"combo": o["combo"]}, "%s returns a %s model that differs from the single loader's" % (what, k)))
+    terms = []
     for c, r in zip(cases, results):
         label = "%s/%s/%s" % (c["sub"], c["name"], c["variant"])
         ctx.case(("variant", label), c["sub"] in ("damage", "thermal", "fluid"))
@@ -188,6 +207,25 @@ def run(ctx):
             for m, vals in ev["coef"].items():
                 if not all(uv(v) > 0 for v in vals):
                     findings.append((c, "%s: film coefficient for %s not positive" % (label, m)))
+            node = read_table(c["sub"], c["name"], c["variant"])
+            tabs = {m.tag: ([float(x) for x in m.find("temp").text.split()], [float(x) for x in m.find("values").text.split()])
+                    for m in node if m.find("temp") is not None}
+            pts = [float.fromhex(t) for t in c["T"]]
+            for m in c["mats"]:
+                src = m if m in tabs else "default"
+                if src not in tabs:
+                    continue
+                ts, vs = tabs[src]
+                for T, got, dgot in zip(pts, ev["coef"][m], ev["dcoef"][m]):
+                    j = max(k for k in range(len(ts) - 1) if ts[k] <= T)
+                    slope = (vs[j + 1] - vs[j]) / (ts[j + 1] - ts[j])
+                    val = vs[j] + slope * (T - ts[j])
+                    what = "material %s%s" % (m, "" if m in tabs else " (not listed: the default entry applies)")
+                    if abs(uv(got) - val) > 1e-12 * abs(val):
+                        findings.append((c, "%s: film coefficient for %s at %g K is %r, the table gives %r" % (label, what, T, uv(got), val)))
+                    if T not in ts and abs(uv(dgot) - slope) > 1e-9 * (abs(slope) + 1e-15):
+                        findings.append((c, "%s: derivative of the film coefficient for %s at %g K is %r, the table's slope is %r"
+                                         % (label, what, T, uv(dgot), slope)))
         elif c["sub"] == "damage" and ev.get("kind") == "metallic":
             S = [float.fromhex(s) for s in c["stress"]]
             Ts = [float.fromhex(t) for t in c["T"]]
@@ -271,7 +309,9 @@ def replay(rp):
         print("replay file names a broken obligation, not an input: %s" % rp.get("broken"))
         return 1
     print("recorded:", rp.get("oracle"))
-    if "sub" in c:
+    if "combo" in c:
+        r = run_impl("c20_materials", {"cases": [], "combos": [c["combo"]]})["combos"][0]
+    elif "sub" in c:
         r = run_impl("c20_materials", {"cases": [c]})["results"][0]
     else:
         r = run_impl("c20_materials", {"cases": [], "custom": [c]})["custom"][0]
